@@ -1,6 +1,7 @@
 import Replicon.Proofs.Visibility
 import Replicon.Proofs.Sync
 import Replicon.Proofs.ClientVals
+import Replicon.Proofs.Jump
 /-
 C08 — Hidden entities' data never reaches a client.
 
@@ -129,5 +130,39 @@ theorem C08_history_gained_entity_values (s0 : Srv.Server) (hw : s0.world = []) 
         (Joint.replay ((Joint.runLog { srv := s0 } (fun _ => []) ops).2 z.1)).entityComps.contains k = false →
         Cli.valOn (Cli.applyUpdate (Joint.replay ((Joint.runLog { srv := s0 } (fun _ => []) ops).2 z.1)) u) e k = some comp.val :=
   Joint.history_new_entity_values s0 hw hc0 hb hrates ops hl ticked ms hr z hz e hnew hbump ent hwld
+
+/-- `C08_history_gain_lose` for histories in which the tick also advances by more than one at once
+(`Joint.OpJ`, `Proofs/Jump.lean`; the hypotheses are those of the session theorems: identifiers not
+reused, a frame between a stop and a start, no pre-spawn mappings). -/
+theorem C08_history_gain_lose_with_tick_jumps (s0 : Srv.Server) (hw : s0.world = []) (hc0 : s0.clients = [])
+    (hb : s0.removalBuf = []) (ht : s0.lastRun < s0.now) (ops : List Joint.OpJ)
+    (hl : Joint.LegalJ { srv := s0 } ops) (ticked : Bool) (ms : Nat) (parts : Nat → List (List Nat))
+    (hr : (Joint.runLogJ { srv := s0 } (fun _ => []) ops).1.srv.running = true)
+    (hc : (Srv.preRun (Joint.runLogJ { srv := s0 } (fun _ => []) ops).1.srv ticked ms).tickChanged = true)
+    (c : Nat) (cl : Srv.Cli)
+    (hm : (c, cl) ∈ (Srv.preRun (Joint.runLogJ { srv := s0 } (fun _ => []) ops).1.srv ticked ms).clients)
+    (ha : cl.authorized = true) (e : Nat) :
+    (e ∈ Srv.keys cl →
+      ¬ (Srv.marked (Srv.preRun (Joint.runLogJ { srv := s0 } (fun _ => []) ops).1.srv ticked ms).world e ∧
+         isVisible (Srv.preRun (Joint.runLogJ { srv := s0 } (fun _ => []) ops).1.srv ticked ms).white
+          (Srv.cell (Srv.ranClient (Srv.preRun (Joint.runLogJ { srv := s0 } (fun _ => []) ops).1.srv ticked ms) parts (c, cl)).2 e) = true) →
+      ∃ o u, (c, o) ∈ (Joint.frame (Joint.runLogJ { srv := s0 } (fun _ => []) ops).1 ticked ms parts).2.1 ∧
+        o.update = some u ∧ e ∈ u.despawns) ∧
+    (e ∉ Srv.keys cl →
+      (Srv.marked (Srv.preRun (Joint.runLogJ { srv := s0 } (fun _ => []) ops).1.srv ticked ms).world e ∧
+         isVisible (Srv.preRun (Joint.runLogJ { srv := s0 } (fun _ => []) ops).1.srv ticked ms).white
+          (Srv.cell (Srv.ranClient (Srv.preRun (Joint.runLogJ { srv := s0 } (fun _ => []) ops).1.srv ticked ms) parts (c, cl)).2 e) = true) →
+      ∃ o u, (c, o) ∈ (Joint.frame (Joint.runLogJ { srv := s0 } (fun _ => []) ops).1 ticked ms parts).2.1 ∧
+        o.update = some u ∧ e ∈ u.changes.map (·.ent)) := by
+  have inv := Joint.ksess_runJ ops _ _ (Joint.ksess_empty s0 hw hc0 hb ht) hl
+  have invp := Srv.preRun_sync _ ticked ms inv.sess.sync
+  refine ⟨?_, ?_⟩
+  · intro hk hnv
+    obtain ⟨u, hu, he⟩ := Srv.frame_lost_despawned _ parts invp (c, cl) hm ha e hk hnv
+    exact ⟨_, u, Joint.frame_out_of_client _ ticked ms parts hr hc c cl hm ha, hu, he⟩
+  · intro hk hv
+    obtain ⟨u, hu, he⟩ := Srv.frame_gained_whole _ parts invp (c, cl) hm ha e hk hv
+    exact ⟨_, u, Joint.frame_out_of_client _ ticked ms parts hr hc c cl hm ha, hu, he⟩
+
 
 end Replicon.C08
